@@ -638,7 +638,7 @@ func (c C03) Run(t *tape.Tape, opt core.RunOpt) (res core.Result) {
 		for i := 0; i < 4; i++ {
 			// generated valid requests with one argument value of the wrong shape
 			r := workload.GenRequest(t, workload.ReqOpt{Strat: strat, MultiOp: false, VarInLiteral: strat != workload.StratReflect, ShuffleArgs: true, MaxDepth: 3,
-				Ghost: true, Relay: true, Pick: true, Nick: true, Span: true})
+				Ghost: true, Relay: true, Pick: true, Nick: true, Span: true, Blob: true, Call: true})
 			if t.Bool(1, 3) {
 				docs = append(docs, r.Src) // as generated (fields without a Go counterpart selected repeatedly, nested requests)
 			} else {
